@@ -71,19 +71,21 @@ type oneBackend struct {
 	nh int
 }
 
-func newOneBackend(name string, nh int) (*oneBackend, error) {
+func newOneBackend(name string, sp Space) (*oneBackend, error) {
+	nh := len(sp.RegIDs)
 	if name == "kv" {
 		b, err := newKVBackend(true)
 		if err != nil {
 			return nil, err
 		}
+		b.noMig = sp.NoMig
 		return &oneBackend{b: b, nh: nh}, nil
 	}
 	h, err := openFreshSQL()
 	if err != nil {
 		return nil, err
 	}
-	b, err := newSQLBackend(h)
+	b, err := newSQLBackend(h, sp.SQLCfg)
 	if err != nil {
 		h.close()
 		return nil, err
@@ -100,6 +102,8 @@ func (o *oneBackend) close() {
 	o.b.sq.close()
 }
 
+// run executes a history; amount tokens are resolved step by step against what the
+// store reports at that point.
 func (o *oneBackend) run(ops []string) ([]result, error) {
 	var out []result
 	for _, raw := range ops {
@@ -107,6 +111,33 @@ func (o *oneBackend) run(ops []string) ([]result, error) {
 		if err != nil {
 			return nil, err
 		}
+		rs, err := o.runOps([]op{o.b.resolveOn(p)})
+		if err != nil {
+			return nil, err
+		}
+		out = append(out, rs...)
+	}
+	return out, nil
+}
+
+// resolveAll parses ops and resolves their amount tokens against the *current* state
+// of the store: the operations of a concurrent / interleaved case are fixed calls
+// (same arguments in every order that is compared).
+func (o *oneBackend) resolveAll(ops []string) ([]op, error) {
+	out := make([]op, len(ops))
+	for i, raw := range ops {
+		p, err := parseOp(raw)
+		if err != nil {
+			return nil, err
+		}
+		out[i] = o.b.resolveOn(p)
+	}
+	return out, nil
+}
+
+func (o *oneBackend) runOps(ops []op) ([]result, error) {
+	var out []result
+	for _, p := range ops {
 		if p.kind == "reopen" {
 			if err := o.b.reopen(); err != nil {
 				return nil, err
@@ -163,8 +194,8 @@ func resString(r result) string {
 // injectedRun replays hist, re-instantiates the store, then runs a with the ops inj
 // executed right before a's tx-th transaction. It returns the answers (a first,
 // then inj in order), the final report and whether the boundary was reached.
-func injectedRun(be string, nh int, hist []string, a string, inj []string, tx int64) (answers []string, final string, reached bool, err error) {
-	o, err := newOneBackend(be, nh)
+func injectedRun(be string, sp Space, hist []string, a string, inj []string, tx int64) (answers []string, final string, reached bool, err error) {
+	o, err := newOneBackend(be, sp)
 	if err != nil {
 		return nil, "", false, err
 	}
@@ -172,10 +203,11 @@ func injectedRun(be string, nh int, hist []string, a string, inj []string, tx in
 	if _, err := o.run(append(append([]string{}, hist...), "reopen")); err != nil {
 		return nil, "", false, err
 	}
-	pa, err := parseOp(a)
+	all, err := o.resolveAll(append([]string{a}, inj...))
 	if err != nil {
 		return nil, "", false, err
 	}
+	pa, injOps := all[0], all[1:]
 	var (
 		n      int64
 		active bool
@@ -189,7 +221,7 @@ func injectedRun(be string, nh int, hist []string, a string, inj []string, tx in
 		n++
 		if n == tx {
 			active = true
-			injRes, injErr = o.run(inj)
+			injRes, injErr = o.runOps(injOps)
 			active = false
 			reached = true
 		}
@@ -208,9 +240,9 @@ func injectedRun(be string, nh int, hist []string, a string, inj []string, tx in
 
 // sequentialRun is the reference: hist, re-instantiation, then the given order.
 // answers are returned in the canonical order (a first, then inj in order).
-func sequentialRun(be string, nh int, hist []string, pos int, a string, inj []string) (answers []string, final string, err error) {
+func sequentialRun(be string, sp Space, hist []string, pos int, a string, inj []string) (answers []string, final string, err error) {
 	order := orderAt(a, inj, pos)
-	o, err := newOneBackend(be, nh)
+	o, err := newOneBackend(be, sp)
 	if err != nil {
 		return nil, "", err
 	}
@@ -218,7 +250,12 @@ func sequentialRun(be string, nh int, hist []string, pos int, a string, inj []st
 	if _, err := o.run(append(append([]string{}, hist...), "reopen")); err != nil {
 		return nil, "", err
 	}
-	rs, err := o.run(order)
+	// the same calls (arguments resolved in the base state) as in the injected run
+	ops, err := o.resolveAll(order)
+	if err != nil {
+		return nil, "", err
+	}
+	rs, err := o.runOps(ops)
 	if err != nil {
 		return nil, "", err
 	}
@@ -264,15 +301,14 @@ type ilCase struct {
 
 // checkCase returns ("", order index) if linearizable, else a description.
 func checkCase(c ilCase, execs *int64) (bad string, which string, reached bool, err error) {
-	nh := len(c.space.RegIDs)
-	ans, fin, reached, err := injectedRun(c.be, nh, c.hist, c.a, c.inj, c.tx)
+	ans, fin, reached, err := injectedRun(c.be, c.space, c.hist, c.a, c.inj, c.tx)
 	atomic.AddInt64(execs, 1)
 	if err != nil || !reached {
 		return "", "", reached, err
 	}
 	var tried []string
 	for i, ord := range ordersFor(c.a, c.inj) {
-		sa, sf, err := sequentialRun(c.be, nh, c.hist, i, c.a, c.inj)
+		sa, sf, err := sequentialRun(c.be, c.space, c.hist, i, c.a, c.inj)
 		atomic.AddInt64(execs, 1)
 		if err != nil {
 			return "", "", true, err
@@ -441,19 +477,18 @@ func runInterleavings(run *evid.Run, sps []Space, st *Stats, pool *sqlPool, dead
 // runInjected is the replay path of an interleaved case: the prefix has already been
 // executed on w (both backends, narrated); the case itself is re-run from scratch on
 // single-backend instances exactly as the explorer did.
-func runInjected(w *World, hist []string, last string, inj injectDoc, rep reporter, logf func(string, ...any)) {
+func runInjected(sp Space, hist []string, last string, inj injectDoc, rep reporter, logf func(string, ...any)) {
 	say := func(f string, a ...any) {
 		if logf != nil {
 			logf(f, a...)
 		}
 	}
-	c := ilCase{be: inj.Be, hist: hist, a: last, inj: inj.Ops, tx: inj.Tx}
+	c := ilCase{be: inj.Be, space: sp, hist: hist, a: last, inj: inj.Ops, tx: inj.Tx}
 	if c.be == "" {
 		c.be = "kv"
 	}
-	nh := w.nh
 	say("interleaved step on %s: store re-instantiated, then %s with %v executed by another thread right before its transaction #%d", c.be, last, c.inj, c.tx)
-	ans, fin, reached, err := injectedRun(c.be, nh, hist, last, c.inj, c.tx)
+	ans, fin, reached, err := injectedRun(c.be, sp, hist, last, c.inj, c.tx)
 	if err != nil {
 		say("harness error: %v", err)
 		return
@@ -467,7 +502,7 @@ func runInjected(w *World, hist []string, last string, inj injectDoc, rep report
 	okAny := false
 	var tried []string
 	for i, ord := range ordersFor(last, c.inj) {
-		sa, sf, err := sequentialRun(c.be, nh, hist, i, last, c.inj)
+		sa, sf, err := sequentialRun(c.be, sp, hist, i, last, c.inj)
 		if err != nil {
 			say("harness error: %v", err)
 			return
